@@ -242,6 +242,9 @@ def run_case(case) -> Outcome:
         out.unspecified.append("instance-not-constructible")
         return out
     snap = freeze(x)
+    # decided NOW: later steps may mutate the argument objects (an emptied list is deep-copyable again, the instance - rightly -
+    # still holds what it was given)
+    args_deepcopyable = _args_deepcopyable(originals)
     classes = set()
     churned = [0]
 
@@ -384,7 +387,7 @@ def run_case(case) -> Outcome:
             try:
                 y = copy.copy(x) if o == "copy" else copy.deepcopy(x)
             except Exception as exc:  # noqa: BLE001
-                if o == "deepcopy" and not _args_deepcopyable(originals):
+                if o == "deepcopy" and not args_deepcopyable:
                     # the user's own payload (e.g. a dict_keys view kept as-is by an Any annotation) cannot be deep
                     # copied by Python itself: not the library's doing
                     out.unspecified.append("argument-not-deepcopyable-in-plain-python")
